@@ -243,14 +243,46 @@ fn offset_to_position(input: &str, offset: usize) -> Position {
     Position::new(line, col)
 }
 
+/// Maximum nesting depth of an expression or type.
+///
+/// The parser (and everything that later walks the syntax tree) is recursive,
+/// so unbounded nesting in the input would overflow the stack.
+const MAX_NESTING_DEPTH: usize = 512;
+
 struct Parser {
     tokens: Vec<Spanned>,
     pos: usize,
+    /// Current nesting depth of the expression or type being parsed.
+    depth: usize,
 }
 
 impl Parser {
     fn new(tokens: Vec<Spanned>) -> Self {
-        Parser { tokens, pos: 0 }
+        Parser {
+            tokens,
+            pos: 0,
+            depth: 0,
+        }
+    }
+
+    /// Enter one more level of nesting, or fail if the input is nested too deeply.
+    fn descend(&mut self) -> Result<(), ErrorSet> {
+        if self.depth >= MAX_NESTING_DEPTH {
+            return Err(ErrorSet::single(
+                self.current_position(),
+                Error::ParseFailed(Some(format!(
+                    "input nested more than {} levels deep",
+                    MAX_NESTING_DEPTH
+                ))),
+            ));
+        }
+        self.depth += 1;
+        Ok(())
+    }
+
+    /// Leave the given number of levels of nesting.
+    fn ascend(&mut self, levels: usize) {
+        self.depth -= levels;
     }
 
     fn peek(&self) -> Option<&Token> {
@@ -396,6 +428,14 @@ fn parse_arrow(p: &mut Parser) -> Result<(Option<Type>, Option<Type>), ErrorSet>
 
 /// Parse an expression
 fn parse_expr<J: Jet + 'static>(p: &mut Parser) -> Result<Expression, ErrorSet> {
+    p.descend()?;
+    let result = parse_expr_nested::<J>(p);
+    p.ascend(1);
+    result
+}
+
+/// Parse an expression, after the nesting depth has been accounted for
+fn parse_expr_nested<J: Jet + 'static>(p: &mut Parser) -> Result<Expression, ErrorSet> {
     let position = p.current_position();
 
     match p.peek().cloned() {
@@ -658,8 +698,22 @@ fn parse_literal(p: &mut Parser) -> Result<(Vec<u8>, usize, Position), ErrorSet>
 
 /// Parse a type expression, left-associative for both + and *
 fn parse_type(p: &mut Parser) -> Result<Option<Type>, ErrorSet> {
+    // Every operator nests the type to its left one level deeper.
+    let mut levels = 1;
+    p.descend()?;
+    let result = parse_type_nested(p, &mut levels);
+    p.ascend(levels);
+    result
+}
+
+/// Parse a type expression, after the nesting depth has been accounted for
+fn parse_type_nested(p: &mut Parser, levels: &mut usize) -> Result<Option<Type>, ErrorSet> {
     let mut lhs = parse_type_atom(p)?;
     loop {
+        if p.peek() == Some(&Token::Plus) || p.peek() == Some(&Token::Star) {
+            p.descend()?;
+            *levels += 1;
+        }
         if p.peek() == Some(&Token::Plus) {
             p.advance();
             let rhs = parse_type_atom(p)?;
@@ -686,9 +740,16 @@ fn parse_type(p: &mut Parser) -> Result<Option<Type>, ErrorSet> {
 /// `A?` is the notation that types are displayed in for the option type `1 + A`.
 fn parse_type_atom(p: &mut Parser) -> Result<Option<Type>, ErrorSet> {
     let mut ty = parse_type_atom_no_suffix(p)?;
+    let mut levels = 0;
     while p.eat(&Token::Question) {
+        if let Err(e) = p.descend() {
+            p.ascend(levels);
+            return Err(e);
+        }
+        levels += 1;
         ty = ty.map(|some| Type::Sum(Box::new(Type::One), Box::new(some)));
     }
+    p.ascend(levels);
     Ok(ty)
 }
 
